@@ -102,6 +102,8 @@ impl StarkProof {
 
         let fri = self.proof_parameters.stark.fri.clone();
 
+        // The verifier stores the difficulty in a u8.
+        anyhow::ensure!(fri.proof_of_work_bits <= u8::MAX as u32, "Invalid proof of work bits");
         let proof_of_work = ProofOfWorkConfig { n_bits: fri.proof_of_work_bits };
         let n_queries = fri.n_queries;
 
@@ -393,6 +395,8 @@ impl TryFrom<StarkProof> for stark_proof::StarkProof {
             annotations.z.clone(),
             annotations.alpha.clone(),
         )?;
+        // The verifier stores the nonce in a u64.
+        anyhow::ensure!(annotations.proof_of_work_nonce.bits() <= 64, "Invalid proof of work nonce");
         let unsent_commitment = value.stark_unsent_commitment(&annotations);
         let witness = value.stark_witness(&annotations);
 
